@@ -4,12 +4,12 @@ from hypothesis import strategies as st
 
 from vpbt import gfi_hist
 
-CHECKS = {"bwd_weight"}
+CHECKS = {"bwd_weight", "weight", "regen_weight"}  # forward weights follow the library convention new score - old score (C05/C07)
 CFG_UPD = {"ops": ["update"], "change_idx": True, "change_flag": True}
 CFG_REGEN = {"ops": ["regen"], "kinds": ["static", "scan", "dimap"]}
 CFG_INDEX = {"ops": ["index"], "index_subs": ["update", "regen"], "nmin": 1}
 REGEN_TOP = ["static", "scan", "dimap"]
-INDEX_TOP = ["vmap", "repeat", "scan"]
+INDEX_TOP = ["vmap", "repeat", "scan", "scan"]
 
 
 def nontrivial(case, s, infos):
